@@ -50,6 +50,8 @@ def plan(tier, seed):
         t += wp.enum_tasks(6, 255, 1, 1, seed, frac=0.03)
         t += wp.member_tasks(5, 10, 16, seed, plain_graph_every=7)
         t += wp.member_tasks(6, 20, 96, seed, plain_graph_every=7)
+    for n, k, fr in ((2, 1, 1.0), (3, 1, 1.0), (4, 2, 1.0), (5, 6, 1.0), (6, 24, 0.34 if tier == "quick" else 1.0)):
+        t += wp.tablerep_tasks(n, k, seed, fr)
     for n, cnt in ((4, 16), (5, 16), (6, 32)):
         t += wp.neighbour_tasks(n, cnt if tier == "quick" else cnt * 12, 16, seed, per_anchor=36 if tier == "quick" else 80)
     random.Random(seed).shuffle(t)
@@ -61,11 +63,26 @@ def check_case(case, p=None, retain=None):
     from htstabilizer.stabilizer_circuits import get_preparation_circuit
     n = case["n"]
     out = []
-    ok, st = call(ws.make_stabilizer, case, case["fmt"], random.Random(n))
+    own_circuit = None
+    if case["fmt"] == "circuit" and case.get("circuit") and h64(("own", tuple(case["gens"]))) % 2 == 0:
+        # the caller keeps using its own circuit object after building the Stabilizer from it (appends the next gates):
+        # the Stabilizer still denotes what it denoted when it was built
+        from htstabilizer.stabilizer import Stabilizer
+        own_circuit = ws.qiskit_circuit(case["circuit"], n)
+        ok, st = call(lambda: (Stabilizer(own_circuit), "circuit"))
+        if ok:
+            call(own_circuit.z, 0)
+            call(own_circuit.x, n - 1)
+            call(own_circuit.h, n // 2)
+            call(own_circuit.cx, 0, n - 1)
+    else:
+        ok, st = call(ws.make_stabilizer, case, case["fmt"], random.Random(n))
     if not ok:
         return [("input-rejected n=%d fmt=%s" % (n, case["fmt"]),
                  "constructing the Stabilizer for a valid input raised %s: %s" % (exc_name(st), st))], None
     stab, fmt_used = st
+    if own_circuit is not None:
+        fmt_used = "circuit (caller went on editing its circuit afterwards)"
     if h64(tuple(case["gens"])) % 3 == 0:
         call(repr, stab)                    # print(stabilizer) before asking for the circuit: must not matter
         call(stab.to_list)
